@@ -367,8 +367,9 @@ func ReadFromTeletext(r io.Reader, o TeletextOptions) (s *Subtitles, err error) 
 			return
 		}
 
+		// The demuxer may return no data and no error once the end of the stream has been reached
 		// We only parse PES data
-		if d.PES == nil {
+		if d == nil || d.PES == nil {
 			continue
 		}
 
@@ -436,6 +437,11 @@ func teletextPID(dmx *astits.Demuxer, o TeletextOptions) (pid uint16, err error)
 			}
 			err = fmt.Errorf("astisub: fetching next data failed: %w", err)
 			return
+		}
+
+		// The demuxer may return no data and no error once the end of the stream has been reached
+		if d == nil {
+			continue
 		}
 
 		// PMT data
